@@ -186,7 +186,7 @@ def run(ck):
                                 ck.undecided("C09.R3", inst + ":Re(w1*w2)", asite, "result is not Re(weight1*weight2): %r" % (r.term,))
                         else:
                             ck.undecided("C09.R3", inst + ":Re(w1*w2)", asite, "weights are not complex pairs")
-                    ck.check(isinstance(r, VTens) and r.shape == ("B",), "C09.R3", inst + ":shape", asite, "result shape %s, expected (B,)" % (getattr(r, "shape", None),))
+                    ck.check(shape_is(r, ("B",)), "C09.R3", inst + ":shape", asite, "result shape %s, expected (B,)" % (getattr(r, "shape", None),))
     # ------------------------------------------------------------------ R4 history independence (two-call protocol)
     from .history import check_history
 
